@@ -145,11 +145,8 @@ class C03(Prop):
         w = witness_fn(x)
         if w is not None:
             ctx.fail(clause + ".lang", witness=w, result_accepts=x.accepts(w), result=x.describe(), **kw)
-        for w in words:
-            rr = ctx.call(res.value.accepts, list(w))
-            if ctx.returns(rr, clause + ".accepts", word=w, **kw) and rr.value is not want_fn(w):
-                ctx.fail(clause + ".accepts", word=w, got=rr.value, want=want_fn(w), **kw)
-                break
+        if words:
+            ctx.batch_equal(clause + ".accepts", lambda w: res.value.accepts(list(w)), words, lambda w: bool(want_fn(w)), **kw)
         return x
 
     def _same_lang(self, ctx, clause, res, x0):
